@@ -174,6 +174,11 @@ def do_replay(prop: str, path: str) -> int:
         print("NOT reproduced: no difference inside the property's domain"
               + (f" (the history leaves it at step {cut + 1}: {why})" if cut is not None else ""))
         return 0
+    if prop == "C13" and ("roundtrip" in case or "session" in case):
+        # a history / registry saved and loaded again, or one gateway with a persistence file: re-executed
+        from .props import persist
+        persist.replay(case)
+        return 0
     if "history" in case:
         from . import gw
         h = gw.Hist.from_json(case["history"])
@@ -254,7 +259,8 @@ def body_changes() -> list[str]:
 
 
 # properties about the gateway's receive / send path: the generated handler bodies must equal the model's handlers
-TIE_PROPS = {"C03", "C04", "C05", "C06", "C07", "C08", "C10", "C11", "C12", "C19"}
+# (C13: its reachability theorems - every registry the handlers can build lies in RegOK - speak about the same handlers)
+TIE_PROPS = {"C03", "C04", "C05", "C06", "C07", "C08", "C10", "C11", "C12", "C13", "C19"}
 TIE_MOD = "AioMySensors.Lemmas.BodiesEq"
 # properties about the stream transports: the generated StreamTransport methods must equal the model's Transport.*
 STREAM_TIE_PROPS = {"C03", "C17"}
